@@ -427,6 +427,47 @@ def run(sim):
     if results:
         sim.check("producer-unregistered", t.producer is None, kind, "transport still has a producer registered after writeTo fired")
     sim.nontrivial = bool(prod.log or flags["async"] or end != "finish")
+    if sim.draw_bool(0.15, "reissue"):
+        reissue(sim)
+
+
+REISSUE_METHODS = [b"PUT", b"DELETE", b"M-SEARCH", b"GE T", b"GET\r\nX: y", b"", b"P\x00ST"]
+REISSUE_TARGETS = [b"/second?x=1", b"*", b"/a%20b", b"/a b", b"/x\r\nHost: evil", b"/t\n", b"/\x7f"]
+
+
+def reissue(sim):
+    """The same Request object written twice with its public method / uri reassigned in between: the second write
+    must carry (or refuse) the values the object holds at that moment."""
+    sim.probe("request_object_reissued")
+    r = _newclient.Request(b"GET", b"/first", Headers({b"host": [b"sim.example"]}), None)
+    t1 = net.SimTransport(sim, "c1")
+    with sim.guard("writeTo-raised", "first-write"):
+        r.writeTo(t1)
+    m = sim.draw_choice([b"GET"] + REISSUE_METHODS, "re-method")
+    u = sim.draw_choice([b"/first"] + REISSUE_TARGETS, "re-target")
+    r.method, r.uri = m, u
+    valid = bool(m) and all(0x21 <= c <= 0x7e and c not in b'"(),/:;<=>?@[\\]{}' for c in m) and bool(u) and all(0x21 <= c <= 0x7e for c in u)
+    t2 = net.SimTransport(sim, "c2")
+    refused = False
+    res = []
+    try:
+        d = r.writeTo(t2)
+        d.addBoth(res.append)
+        if res and isinstance(res[0], Failure):
+            refused = res[0].check(ValueError) is not None
+    except ValueError:
+        refused = True
+    except Exception as e:
+        sim.fail("writeTo-raised", type(e).__name__, "re-issue with method=%r target=%r: %s" % (m, u, str(e)[:120]))
+    sim.event("reissue", m, u, "refused" if refused else "written")
+    if not valid:
+        sim.check("invalid-refused", refused and not t2.written, "reissue", lambda: "re-issued request with method=%r target=%r was not refused; wire %r" % (m, u, bytes(t2.written)[:80]))
+    else:
+        sim.check("valid-request-accepted", not refused, "reissue", "re-issue refused valid method=%r target=%r" % (m, u))
+        req, body, complete, err, trailing = h11_parse(bytes(t2.written))
+        sim.check("parses", req is not None and err is None and complete, "reissue", lambda: "h11: %r wire %r" % (err, bytes(t2.written)[:80]))
+        sim.check("request-line", bytes(req.method) == m and bytes(req.target) == u, "reissue",
+                  lambda: "second write carries %r %r, the object holds %r %r" % (bytes(req.method), bytes(req.target), m, u))
 
 
 def show(results):
